@@ -367,7 +367,12 @@ def run_cache2d(spec, rec, dadi, DFE):
                 if ext:
                     ref_loose, _ = odfe_2d(c2, pdf, params, theta, True, tight=False)
                     err_q = relerr(ref_loose, ref)
-                    tol = 1e-8 + 3 * err_q
+                    # ... plus a tenth of what the code's epsrel = 1e-3 would allow on the exterior terms: for a symmetric pdf the
+                    # code reuses one family of tail integrals for both populations, so its quadrature error is another sample of
+                    # the same size, not the same number (seen: 2.9e-6 against err_q = 7.6e-7)
+                    tail_mass = parts.get("edges", 0.0) + parts.get("corners", 0.0)
+                    smax = float(np.max(np.abs(c2.spectra)))
+                    tol = 1e-8 + 3 * err_q + 1e-4 * tail_mass * smax * theta / max(float(np.max(np.abs(ref))), 1e-300)
                     rec.hit("cache2d-corner-weight>1e-3" if parts["corners"] > 1e-3 else "cache2d-corner-weight<=1e-3")
                 else:
                     tol = 1e-10
